@@ -112,7 +112,7 @@ StyleSpace == [ ws : {" ", "\t", "   "},            \* a required WHITESPACE tok
                 ind : {"  ", "\t", "", "      "},    \* indentation unit
                 blank : {0, 1, 2},                   \* blank (whitespace-only) lines at every line break
                 cmt : {0, 1},                        \* full-line comments (space-indented) at every line break
-                trail : {"", " # t", "   ", " # see #12 # more"},         \* after the last lexeme of a line: trailing comment / trailing blanks
+                trail : {"", " # t", "   ", " # see #12 # more", "\t", " \t "},         \* after the last lexeme of a line: trailing comment / trailing blanks
                 multi : BOOLEAN,                     \* restriction lists over several lines
                 lead : {"", "\n", "  \n\n", "# hdr\n", "  # a\n  # b\n"},     \* before the header
                 fin : {"", "\n", "\n\n"} ]           \* after the last lexeme
@@ -136,6 +136,7 @@ CmtLine(st, depth) == (IF "cind" \in DOMAIN st /\ st.cind = 0 THEN "" ELSE Rep("
 Brk(st, depth) == [str |-> st.trail \o st.eol \o Rep("  " \o st.eol, st.blank) \o Rep(CmtLine(st, depth), st.cmt) \o Rep(st.ind, depth),
                    lines |-> 1 + st.blank + st.cmt, col |-> Len(Rep(st.ind, depth))]
 Flat(s) == [str |-> s, lines |-> 0, col |-> -1]
+HasTab(s) == \E i \in 1..Len(s) : SubSeq(s, i, i) = "\t"
 Sep(st, kind) ==
   CASE kind = "NONE" -> Flat("") [] kind = "END" -> Flat("")
     [] kind = "WS1" -> Flat(st.ws)
@@ -147,7 +148,8 @@ Sep(st, kind) ==
     [] kind = "NL1" -> Brk(st, 1)
     [] kind = "NL2" -> Brk(st, 2)
     [] kind = "LEAD" -> Scan(st.lead)                 \* may contain line breaks: counted
-    [] kind = "FIN" -> Scan(st.trail \o (CASE st.fin = "" -> "" [] st.fin = "\n" -> st.eol [] OTHER -> st.eol \o st.eol))      \* the final line breaks follow the style's line end
+    \* the final line breaks follow the style's line end; a trailing TAB is part of a NEWLINE token (WS? line-end ...), so it needs one
+    [] kind = "FIN" -> Scan((IF st.fin = "" /\ HasTab(st.trail) THEN "" ELSE st.trail) \o (CASE st.fin = "" -> "" [] st.fin = "\n" -> st.eol [] OTHER -> st.eol \o st.eol))
 \* local alternatives for one separator of the given kind (C03: "one or two local overrides"); sequences: jobs address them by ordinal
 Alts(kind) ==
   CASE kind = "WS1" -> <<" ", "\t", "  \t ">>
